@@ -57,7 +57,11 @@ def make_cases(ctx, vocab):
     reps = 3 if ctx.quick() else 12
 
     def add(s, kw, present, gen, parser, R, st=None, b2=None):
-        cases.append({"s": s, "kw": kw, "settings": st or {}, "b1": B1, "b2": b2 or rng.choice([B2, B3]), "R": R,
+        st = dict(st or {})
+        # the quantifier: "with the absolute / custom-format / timestamp parsers" (a relative phrase
+        # legitimately depends on the reference time; dsb lists 'now' as a month abbreviation)
+        st.setdefault("PARSERS", ["timestamp", "custom-formats", "absolute-time"])
+        cases.append({"s": s, "kw": kw, "settings": st, "b1": B1, "b2": b2 or rng.choice([B2, B3]), "R": R,
                       "present": sorted(present & set(PARTS)), "gen": gen, "parser": parser, "api": "ddp", "probe": True,
                       "pdf": (st or {}).get("PREFER_DATES_FROM", "current_period")})
 
